@@ -1086,7 +1086,7 @@ func (e *E) Read() {
 	}
 	path := names[t.Choose(len(names), "read-setting")]
 	e.drawFaults()
-	kind := t.Weighted([]int{4, 3, 2, 1, 1}, "read-kind")
+	kind := t.Weighted([]int{4, 3, 2, 1, 1, 2}, "read-kind")
 	e.begin(false)
 	o, _ := e.modelOf(path)
 	if e.ambiguous() {
@@ -1194,6 +1194,8 @@ func (e *E) Read() {
 		}
 	case 2: // Unpack of the whole root into a generic map
 		e.readAll()
+	case 5: // Unpack of the root into a drawn struct type
+		e.readTyped()
 	case 3: // FlattenedKeys / CompareConfigs: must terminate (C08) and not change anything
 		var keys []string
 		var d diff.Diff
